@@ -2,6 +2,7 @@ import Mrpro.Model.CG
 import Mrpro.Lemmas.CGL
 import Mrpro.Lemmas.CGKrylovL
 import Mrpro.Lemmas.CGFiniteL
+import Mrpro.Lemmas.SrcCGL
 /-! # C06 — conjugate gradient
 
 `cgRun` is the line-by-line model of `mrpro.algorithms.optimizers.cg` (generic in the vector type).
@@ -28,6 +29,34 @@ variable (B : V →ₗ[K] V →ₗ[K] K) (H : V →ₗ[K] V)
 
 /-- the start value actually used (`initial_value` or, for `None`, the right-hand side) -/
 def start (b : V) (x0 : Option V) : V := match x0 with | some v => v | none => b
+
+/-! ### Tie to the source (regenerated on every run): every assignment of `cg` — initial residual and direction, `‖r‖²`, `β`, the new
+direction, `H p`, `α`, the updates of solution and residual, the remembered `‖r‖²` — is translated from `cg.py` as it stands into
+`M.Src.cg_*` (typed scalar / vector expressions, in source order; the order of the updates is checked by the translator), and the
+loop `M.cgLoop` all theorems of this file are about is built from exactly these formulas (`M.cgLoop_succ` unfolds one iteration into
+`nextP`, `stepSt`).  The control flow around them (order of the exits, the tolerance test, the callback) is the hand-written part. -/
+theorem src_init (b : V) (x0 : Option V) :
+    cgInit (M.modOps' B) (fun v => H v) b x0 =
+      (let x := M.start' b x0
+       let r := M.Src.cg_init_residual (M.modOps' B) (fun v => H v) b x
+       { x := x, r := r, p := M.Src.cg_init_direction (M.modOps' B) (fun v => H v) r, rrPrev := none }) := M.SrcL.cg_init_eq B H b x0
+theorem src_direction (st : CGState K V) :
+    M.nextP B st = (match st.rrPrev with
+      | none => some st.p
+      | some prev => if prev = 0 then none
+          else some (M.Src.cg_direction (M.modOps' B) (fun v => H v) st.r
+            (M.Src.cg_beta (M.modOps' B) (fun v => H v) (M.Src.cg_rr (M.modOps' B) (fun v => H v) st.r) prev) st.p)) := M.SrcL.cg_direction_eq B H st
+theorem src_step (st : CGState K V) (p : V) :
+    M.stepSt B H st p =
+      (let ops := M.modOps' B
+       let Hf := fun v => H v
+       let rr := M.Src.cg_rr ops Hf st.r
+       let hp := M.Src.cg_hp ops Hf p
+       let α := M.Src.cg_alpha ops Hf rr p hp
+       { x := M.Src.cg_solution ops Hf st.x α p, r := M.Src.cg_residual ops Hf st.r α hp, p := p,
+         rrPrev := some (M.Src.cg_rr_previous ops Hf rr) }) := M.SrcL.cg_step_eq B H st p
+/-- the model's operations are the ones of this file (so `src_*` speak about the same loop as the theorems below) -/
+theorem modOps_eq : M.modOps' B = modOps B := rfl
 
 /-- **finite result**: on an HPD system no division by zero is ever executed — for every start value,
 budget and tolerance, including `tolerance = 0` with a residual that becomes exactly zero -/
